@@ -53,6 +53,8 @@ pub fn pt() -> impl Strategy<Value = PtR> {
 pub enum MsgR {
     HsPropose(Vec<(u64, u64)>),
     HsAccept(u64, u64),
+    /// Accept whose version data says peer sharing is off (0) or carries no peer-sharing field (2)
+    HsAcceptPs(u64, u64, u8),
     HsRefuse(u8),
     HsQueryReply(Vec<(u64, u64)>),
     KaKeepAlive(u16),
@@ -113,7 +115,7 @@ impl MsgR {
     pub fn proto(&self) -> &'static str {
         use MsgR::*;
         match self {
-            HsPropose(_) | HsAccept(..) | HsRefuse(_) | HsQueryReply(_) => "handshake",
+            HsPropose(_) | HsAccept(..) | HsAcceptPs(..) | HsRefuse(_) | HsQueryReply(_) => "handshake",
             KaKeepAlive(_) | KaResponse(_) | KaDone => "keepalive",
             CsRequestNext | CsAwaitReply | CsRollForward(..) | CsRollBackward(..) | CsFindIntersect(_)
             | CsIntersectFound(..) | CsIntersectNotFound(_) | CsDone => "chainsync",
@@ -132,6 +134,7 @@ impl MsgR {
         match self {
             HsPropose(v) => AnyMessage::Handshake(hs::Message::Propose(vtable(v))),
             HsAccept(n, m) => AnyMessage::Handshake(hs::Message::Accept(*n, vdata(*m))),
+            HsAcceptPs(n, m, ps) => AnyMessage::Handshake(hs::Message::Accept(*n, VersionData::new(*m, false, if *ps == 0 { Some(0) } else { None }, if *ps == 0 { Some(false) } else { None }))),
             HsRefuse(k) => AnyMessage::Handshake(hs::Message::Refuse(match k % 3 {
                 0 => hs::RefuseReason::VersionMismatch(vec![13, 14]),
                 1 => hs::RefuseReason::HandshakeDecodeError(13, "x".into()),
